@@ -1,6 +1,6 @@
 (* Executable mirror of pytenet/krylov.py over K := Cx F (F an ordered field).
    Vectors are [list K]; the linear map [Afunc], numpy.linalg.norm ([dnorm]), the breakdown
-   test [beta < 100*n*eps] ([small]), scipy eigh_tridiagonal ([deigh]), numpy.exp ([dexp]) and
+   test [beta < 100*n*eps*max(1, max|A v0|)] ([small]: the tolerance is fixed per call, after fix F9 relative to the operator), scipy eigh_tridiagonal ([deigh]), numpy.exp ([dexp]) and
    scipy expm ([dexpm]) are arguments (section variables): nothing numerical is assumed here. *)
 From Coq Require Import ZArith QArith Qcanon List Bool Arith Lia.
 From PT Require Import Base.Scalar Base.Field.
